@@ -63,6 +63,7 @@ class Opts:
         self.backward_ann = False  # main thread carries '## backward ##' annotations (not nested in each other)
         self.force_second_thread = False
         self.first_op_children = False  # the first file entry may enclose other calls
+        self.fault_kinds = ["no_launch", "no_kernel", "no_corr"]  # which partner of a launch/activity pair may be missing
         self.backward_ann_ranks = None  # None: every rank may carry '## backward ##' annotations; else only these (generation index)
         self.annotation_names = None  # names of user annotations (default: vocab.USER_ANNOTATIONS); may repeat operator names
         self.early_kernels = False  # some activities are stamped 1-2 us before their launch call starts (clock skew): queue length -1
@@ -98,7 +99,7 @@ def leaf_launch(draw, o: Opts, streams: List[int]) -> Dict[str, Any]:
         name, kname = vocab.MEMSET_LAUNCH, pick(draw, vocab.MEMSET_KERNELS)
     fault = "none"
     if o.faults:
-        fault = pick(draw, ["none"] * o.fault_none_weight + ["no_launch", "no_kernel", "no_corr"])
+        fault = pick(draw, ["none"] * o.fault_none_weight + list(o.fault_kinds))
     return {"t": "launch", "name": name, "kind": kind, "pre": pick(draw, SMALL),
             "dur": pick(draw, DUR + ([0] if o.allow_zero_call else [])),
             "stream": pick(draw, streams), "delay": pick(draw, ([0, 0] if o.allow_zero_delay else [1]) + [1, 2, 3, 6] + ([-1, -2] if o.early_kernels else [])),
